@@ -14,7 +14,8 @@ Inductive op :=
 | ORun (fuel : Z) (script : list (list (list Z)))   (* Cpu::run with a scripted control socket *)
 | OLoad (file args : list Z)                      (* elf::load *)
 | OWr (sz addr v : Z) | ORd (sz addr : Z)
-| OWrA (mode sz addr v : Z) | ORdA (mode sz addr : Z).   (* through the @aa:8 / @aa:16 / @aa:24 helpers (mode 8 / 16 / 24) *)   (* 16/32-bit big-endian access through the CPU helpers *)
+| OWrA (mode sz addr v : Z) | ORdA (mode sz addr : Z)
+| OSum (v : Z).                  (* the state count so far (time base of the ioport stamps), set from outside *)   (* through the @aa:8 / @aa:16 / @aa:24 helpers (mode 8 / 16 / 24) *)   (* 16/32-bit big-endian access through the CPU helpers *)
 
 Inductive res := ROk | ROkV (v : Z) | RErr | RPanic.
 
@@ -34,6 +35,7 @@ Definition run_op (o : op) (s : cpu) : res * cpu :=
   | OBnd => of_m try_interrupt (fun _ => ROk) s
   | OInt v => of_m (interrupt v) (fun _ => ROk) s
   | OTick n => (ROk, update_timer n s)
+  | OSum v => (ROk, set_bus (bset_sum v (cbus s)) (set_ssum v s))
   | ORun fuel script =>
     match run (Z.to_nat fuel) script s with
     | Some (Finished s') => (ROk, s')
